@@ -45,9 +45,80 @@ var trackedFields = []trackedField{
 	{"http.go", "conn.lastActivity", "http.lastActivity"},
 }
 
+// The struct census: every field (nested anonymous structs flattened, with the field's type) of the
+// structs whose fields the table tracks. A field that is added, moved out of its mutex-guarded group or
+// retyped changes the census, and with it the obligation that the disciplines cover the struct.
+var censusStructs = []struct{ file, name string }{
+	{"internal/client/multiplexer.go", "RpcMultiplexer"},
+	{"internal/client/multiplexer.go", "muxHandler"},
+	{"internal/client/stream.go", "clientStream"},
+	{"internal/server/stream.go", "serverStream"},
+	{"internal/server/transport_stream.go", "unaryServerTransportStream"},
+	{"server.go", "handler"},
+	{"server.go", "streamHandler"},
+	{"proxy.go", "Proxy"},
+	{"proxy.go", "proxyClient"},
+	{"demux.go", "Demux"},
+	{"demux.go", "demuxConn"},
+	{"http.go", "GoatOverHttp"},
+	{"http.go", "httpReadWriter"},
+}
+
+func flattenFields(prefix string, st *ast.StructType, out *[]string) {
+	for _, f := range st.Fields.List {
+		names := []string{}
+		for _, n := range f.Names {
+			names = append(names, n.Name)
+		}
+		if len(names) == 0 {
+			names = []string{"<embedded>"}
+		}
+		for _, n := range names {
+			if inner, ok := f.Type.(*ast.StructType); ok {
+				flattenFields(prefix+n+".", inner, out)
+			} else {
+				*out = append(*out, prefix+n+":"+str(f.Type))
+			}
+		}
+	}
+}
+
+func structCensus(repo string) string {
+	var b strings.Builder
+	b.WriteString("/-- (struct, flattened fields with types) of every struct whose fields the access table tracks -/\n")
+	b.WriteString("def structFields : List (String × List String) := [\n")
+	for i, cs := range censusStructs {
+		s := load(repo, cs.file)
+		fields := []string{"unknown:missing"}
+		for _, d := range s.file.Decls {
+			gd, ok := d.(*ast.GenDecl)
+			if !ok {
+				continue
+			}
+			for _, sp := range gd.Specs {
+				ts, ok := sp.(*ast.TypeSpec)
+				if !ok || ts.Name.Name != cs.name {
+					continue
+				}
+				if st, ok := ts.Type.(*ast.StructType); ok {
+					fields = nil
+					flattenFields("", st, &fields)
+				}
+			}
+		}
+		sep := ","
+		if i == len(censusStructs)-1 {
+			sep = ""
+		}
+		fmt.Fprintf(&b, "  (%q, %s)%s\n", cs.name, leanStrings(fields), sep)
+	}
+	b.WriteString("]\n")
+	return b.String()
+}
+
 type access struct {
 	field, fn, rw string
-	held         []string
+	held          []string
 }
 
 func accessTable(repo string) string {
